@@ -158,11 +158,13 @@ def c12_apply(op, spec, cfg, rnd):
     if op == "beyond_i64":
         if r not in ("u64", "u128", "i128"):
             return None
-        if r == "i128" and rnd.random() < 0.5:
-            val = rnd.choice([-2 ** 63 - 1, -2 ** 64, -2 ** 100, -2 ** 127])
+        if r == "i128" and rnd.random() < 0.6:
+            val = rnd.choice([-2 ** 63 - 1, -2 ** 63 - 2, -(2 ** 64 - 1), -(2 ** 64 - 2), -(2 ** 63 + rnd.randrange(3, 2 ** 62)),
+                              -(2 ** 64 - rnd.randrange(3, 2 ** 40)), -2 ** 64, -(2 ** 64 + 1), -2 ** 100, -2 ** 127])
         else:
             hi = M.repr_range(r)[1]
-            val = rnd.choice([v for v in (2 ** 63, 2 ** 63 + 1, 2 ** 64 - 1, 2 ** 64, 2 ** 100, hi) if v <= hi])
+            val = rnd.choice([v for v in (2 ** 63, 2 ** 63 + 1, 2 ** 64 - 1, 2 ** 64 - 2, 2 ** 63 + rnd.randrange(2, 2 ** 62), 2 ** 64,
+                                          2 ** 64 + 1, 2 ** 64 + rnd.randrange(0, 2 ** 40), 2 ** 100, hi) if v <= hi])
         if val in m.values:
             return None
         style = rnd.choice(["dec", "hex", "suffix"])
